@@ -25,7 +25,7 @@ BUILTINS = {
     "len", "range", "zip", "sum", "list", "tuple", "set", "dict", "isinstance", "issubclass", "any", "all", "max",
     "min", "abs", "type", "super", "hasattr", "getattr", "setattr", "enumerate", "reversed", "sorted", "str", "repr",
     "float", "int", "bool", "print", "ValueError", "TypeError", "RuntimeError", "Exception", "NotImplementedError",
-    "IndexError", "KeyError", "map", "filter", "iter", "next", "id", "hash", "round", "frozenset", "object", "divmod",
+    "IndexError", "KeyError", "map", "filter", "iter", "next", "id", "hash", "round", "frozenset", "object", "divmod", "slice", "StopIteration",
 }
 
 
@@ -190,13 +190,62 @@ class Interp:
         env = Env(info.module, closure, info)
         env.self_cls = self_cls or info.cls
         env.vars.update(args)
+        gen = self._is_generator(info.node)
+        if gen:
+            # generator function: the values it yields, in order, as a list (sound for consumers that iterate it once)
+            env.vars["__yield__"] = ListV(items=())
         self.call_stack.append(info)
         self.functions_entered.add(info.qualname)
         try:
             outs = self.exec_block(info.node.body, env)
         finally:
             self.call_stack.pop()
+        if gen:
+            acc = None
+            for kind, (e, _) in outs.items():
+                if kind in (RETURN, NORMAL):
+                    v = e.lookup("__yield__") if hasattr(e, "lookup") else e.vars.get("__yield__")
+                    acc = v if acc is None else self.join_vals(acc, v, set())
+            if acc is None:
+                raise AbsRaise("Exception", None, "all paths raise")
+            return acc
         return self._function_result(outs)
+
+    _GEN_CACHE: dict = {}
+
+    def _is_generator(self, fn_node) -> bool:
+        k = id(fn_node)
+        if k not in self._GEN_CACHE:
+            found = False
+            stack = list(getattr(fn_node, "body", []))
+            while stack and not found:
+                n = stack.pop()
+                if isinstance(n, (ast.Yield, ast.YieldFrom)):
+                    found = True
+                elif not isinstance(n, (ast.FunctionDef, ast.AsyncFunctionDef, ast.Lambda, ast.ClassDef)):
+                    stack.extend(ast.iter_child_nodes(n))
+            self._GEN_CACHE[k] = (fn_node, found)
+        return self._GEN_CACHE[k][1]
+
+    def e_Yield(self, n, env):
+        v = self.eval(n.value, env) if n.value is not None else NONE
+        call = ast.copy_location(ast.Call(func=ast.Attribute(value=ast.Name(id="__yield__", ctx=ast.Load()), attr="append", ctx=ast.Load()), args=[], keywords=[]), n)
+        ast.fix_missing_locations(call)
+        cur = env.lookup("__yield__") if hasattr(env, "lookup") else None
+        if not isinstance(cur, ListV):
+            return self.unknown("yield outside a generator activation", n)
+        self.ops.list_method(cur, "append", [v], {}, call, env)
+        return NONE
+
+    def e_YieldFrom(self, n, env):
+        v = self.eval(n.value, env)
+        call = ast.copy_location(ast.Call(func=ast.Attribute(value=ast.Name(id="__yield__", ctx=ast.Load()), attr="extend", ctx=ast.Load()), args=[], keywords=[]), n)
+        ast.fix_missing_locations(call)
+        cur = env.lookup("__yield__") if hasattr(env, "lookup") else None
+        if not isinstance(cur, ListV):
+            return self.unknown("yield from outside a generator activation", n)
+        self.ops.list_method(cur, "extend", [v], {}, call, env)
+        return NONE
 
     def _function_result(self, outs) -> AVal:
         rv = None
@@ -824,7 +873,11 @@ class Interp:
                     self.eval(s.step, env) if s.step else None)
         if isinstance(s, ast.Tuple):
             return ("tuple", tuple(self.eval_index(e, env) for e in s.elts))
-        return ("index", self.eval(s, env))
+        v = self.eval(s, env)
+        if isinstance(v, ListV) and v.kind == "slice" and v.items is not None and len(v.items) == 3:
+            lo, hi, st_ = (None if isinstance(x, Const) and x.v is None else x for x in v.items)
+            return ("slice", lo, hi, st_)
+        return ("index", v)
 
     def e_UnaryOp(self, n, env):
         v = self.eval(n.operand, env)
